@@ -1273,14 +1273,17 @@ class Compiler:
         tmp = "__tmp_%s" % mangle(id(node))
         # Expressions (attribute translations, inserted message
         # objects) read the target language from the variable scope.
+        # The variable of that name is put back when the element ends.
         publish = "econtext['target_language'] = target_language"
+        names = ("target_language", )
         return template("BACKUP = target_language", BACKUP=backup) + \
             self._engine(node.expression, store(tmp)) + \
             [ast.Assign([store("target_language")], load(tmp))] + \
+            list(self._enter_assignment(names)) + \
             template(publish) + \
             self.visit(node.node) + \
             template("target_language = BACKUP", BACKUP=backup) + \
-            template(publish)
+            list(self._leave_assignment(names))
 
     def visit_TxContext(self, node):
         backup = "__previous_i18n_context_%s" % mangle(id(node))
